@@ -342,7 +342,7 @@ fn check_program(src: &str, template: &str, atoms: &str, l: &mut Local) {
 pub fn run(mut run: Run) -> ! {
     crate::core::silence_panics();
     let quick = run.quick();
-    run.rule = format!("every (template x atom) program: {} single-hole templates covering every operand, block, scoped-block body, iterator, range end, destructuring, index, function-argument, declaration-bound, declaration-iterator, constraint-iterator, constraint-name and constant position x 30 typed atoms (numbers, booleans, strings, arrays of every element kind, graph, constants, calls, domain variables, undeclared names); 8 scoped templates x (30 + 6 scoped atoms: node, edge, tuple, iterator, element, shadowed constant); the single-hole templates again wrapped in an iteration scope x 10 iteration-only atoms (node, edge, edge endpoint, edge weight, enumerate tuple, string element, boolean element, matrix row, range variable, array element); 22 wrong-arity calls; thorough: 12 two-hole templates x all atom pairs; distinct = accepted program texts; non-trivial = accepted by the type checker", TEMPLATES.len());
+    run.rule = format!("every (template x atom) program: {} single-hole templates covering every operand, block, scoped-block body, iterator, range end, destructuring, index, function-argument, declaration-bound, declaration-iterator, constraint-iterator, constraint-name and constant position x 30 typed atoms (numbers, booleans, strings, arrays of every element kind, graph, constants, calls, domain variables, undeclared names); 8 scoped templates x (30 + 6 scoped atoms: node, edge, tuple, iterator, element, shadowed constant); the single-hole templates again wrapped in an iteration scope x 10 iteration-only atoms (node, edge, edge endpoint, edge weight, enumerate tuple, string element, boolean element, matrix row, range variable, array element); 22 wrong-arity calls; 12 two-hole templates x all atom pairs; thorough: the two-hole templates inside the iteration scope x all pairs of the 40 plain and iteration-only atoms; distinct = accepted program texts; non-trivial = accepted by the type checker", TEMPLATES.len());
     run.assume("type-class error kinds: UndeclaredVariable, WrongArgument, WrongExpectedArgument, WrongFunctionSignature, WrongNumberOfArguments, NonExistentFunction, Unspreadable, SpreadError, UnOpError, BinOpError unless both operands are numeric kinds (division by zero / overflow), Other(domain variable used as a value), Other(block arity)");
     run.family("T1-single-hole", (TEMPLATES.len() * ATOMS.len()) as u64, |i, l| {
         let (tname, obj, cons, extra) = TEMPLATES[i as usize / ATOMS.len()];
@@ -382,7 +382,7 @@ pub fn run(mut run: Run) -> ! {
         let src = program("min x", &format!("x >= {call}"), "");
         check_program(&src, "arity", name, l);
     });
-    if !quick {
+    {
         let n = ATOMS.len();
         run.family("T4-two-holes", (TEMPLATES2.len() * n * n) as u64, move |i, l| {
             let i = i as usize;
@@ -391,6 +391,29 @@ pub fn run(mut run: Run) -> ! {
             let (a2, t2) = ATOMS[i % n];
             let f = |s: &str| s.replace("{H1}", t1).replace("{H2}", t2);
             let src = program(&f(obj), &f(cons), &f(extra));
+            check_program(&src, tname, &format!("{a1}+{a2}"), l);
+        });
+    }
+    if !quick {
+        // two holes inside the iteration scope: every pair over the plain and the iteration-only atoms
+        let all: Vec<(&str, &str)> = ATOMS.iter().chain(WRAP_ATOMS.iter()).cloned().collect();
+        let n = all.len();
+        run.family("T6-two-holes-wrapped-in-scope", (TEMPLATES2.len() * n * n) as u64, move |i, l| {
+            let i = i as usize;
+            let (tname, obj, cons, extra) = TEMPLATES2[i / (n * n)];
+            let (a1, t1) = all[(i / n) % n];
+            let (a2, t2) = all[i % n];
+            if extra.contains("{H") {
+                l.count("wrap-not-applicable");
+                return;
+            }
+            let f = |s: &str| s.replace("{H1}", t1).replace("{H2}", t2);
+            let (obj, cons) = if obj.contains("{H") {
+                (format!("min sum({WRAP_SCOPE}) {{ {} }}", f(obj.strip_prefix("min ").unwrap())), cons.to_string())
+            } else {
+                (obj.to_string(), format!("{} for {WRAP_SCOPE}", f(cons)))
+            };
+            let src = program(&obj, &cons, extra);
             check_program(&src, tname, &format!("{a1}+{a2}"), l);
         });
     }
